@@ -121,6 +121,7 @@ func runSeqEnum(seed uint64, index int64, o hx.Opts) *hx.Result {
 					return
 				}
 			}
+			rt.ReapBlockedSUT() // a table that owns goroutines (none on the pinned tree) is dropped here
 			count++
 			if count == 1 || (count == 1000 && len(sample) < 2) {
 				sample = append(sample, joinSeq(desc))
